@@ -103,7 +103,7 @@ pub fn random_shape(rng: &mut Rng, thorough: bool) -> Shape {
     // limbs, extreme radices, deep gadget decompositions, rank 4 - thresholds a small grid never crosses
     let wide = rng.chance(if thorough { 170 } else { 85 });
     let n = if wide {
-        *rng.pick(if thorough { &[32u32, 64, 128, 256][..] } else { &[32u32, 64, 128][..] })
+        *rng.pick(if thorough { &[4u32, 32, 64, 128, 256][..] } else { &[4u32, 32, 64, 128][..] })
     } else if thorough {
         *rng.pick(&[8u32, 16, 32, 64])
     } else {
@@ -437,6 +437,9 @@ pub fn generate(seed: u64, idx: u64, thorough: bool) -> Case {
         if backend_name == "NTT120Avx" && shape.n < 16 {
             shape.n = 16;
         }
+        if backend_name == "FFT64Avx" && shape.n < 8 {
+            shape.n = 8;
+        }
         Subject::Core {
             op: ops[slot as usize].to_string(),
             shape,
@@ -562,7 +565,10 @@ impl CheckImpl for C12 {
                 acc.samples.push(s);
             }
             if let Some(v) = &o.violation {
-                let subject = format!("{name}/{}", case.backend);
+                // ring degrees below 8 (limbs of 32 bytes): one subject per backend - there the size queries of most of
+                // the library add up pieces that are not multiples of the 64-byte carve alignment, a single known family
+                let tiny = matches!(&case.subject, Subject::Core { shape, .. } if shape.n < 8);
+                let subject = if tiny { format!("tinyring/{}", case.backend) } else { format!("{name}/{}", case.backend) };
                 if !viols.iter().any(|x| x.oracle == v.0 && x.class == v.1 && x.subject == subject) {
                     viols.push(Viol {
                         unit,
@@ -613,7 +619,10 @@ pub fn sweep(backend_name: &str, op: &str, count: u64) {
     crate::util::install_quiet_panic_hook();
     for i in 0..count {
         let mut rng = Rng::new(mix(7, 7, i));
-        let shape = random_shape(&mut rng, false);
+        let mut shape = random_shape(&mut rng, false);
+        if let Some(n) = std::env::var("SWEEP_N").ok().and_then(|x| x.parse().ok()) {
+            shape.n = n;
+        }
         let case = Case {
             backend: backend_name.into(),
             subject: Subject::Core { op: op.into(), shape: shape.clone() },
